@@ -22,6 +22,8 @@ func init() {
 			c11R3(c, "C11.R3")
 			c11R4(c, "C11.R4")
 			c11R5(c, "C11.R5")
+			ruleChecksumAfterMutation(c, "C11.R7", 5) // "opening succeeds using the other meta page": the other page is valid only if every meta writer checksums after its last change
+			ruleMetaSlot(c, "C11.R8") // ... and only if commits alternate between the two slots (never overwrite the newest committed meta)
 			ruleFreeSetEntry(c, "C11.R6") // falling back to the older meta presents ITS state only if that state's pages were not recycled: pages freed by commit N become allocatable at the begin of writer N+1 at the earliest
 		},
 	})
